@@ -217,7 +217,9 @@ func (f *MemFile) Read(b []byte) (n int, err error) {
 	}
 
 	nd.mu.RLock()
-	n = copy(b, nd.data[f.at:])
+	if f.at < int64(len(nd.data)) {
+		n = copy(b, nd.data[f.at:])
+	}
 	nd.mu.RUnlock()
 
 	f.at += int64(n)
